@@ -1,4 +1,8 @@
 use bytes::{Buf, BufMut, Bytes, BytesMut};
+use selium_std::errors::{ProtocolError, Result};
+use std::mem::size_of;
+
+const LEN_MARKER_SIZE: usize = size_of::<u64>();
 
 pub fn encode_message_batch(batch: Vec<Bytes>) -> Bytes {
     let mut bytes = BytesMut::new();
@@ -14,15 +18,35 @@ pub fn encode_message_batch(batch: Vec<Bytes>) -> Bytes {
     bytes.into()
 }
 
-pub fn decode_message_batch(mut bytes: Bytes) -> Vec<Bytes> {
+pub fn decode_message_batch(mut bytes: Bytes) -> Result<Vec<Bytes>> {
+    if bytes.remaining() < LEN_MARKER_SIZE {
+        return Err(ProtocolError::MalformedBatch)?;
+    }
+
     let num_of_messages = bytes.get_u64();
+
+    // Every message occupies at least its length marker, so a larger count cannot be
+    // genuine and must not be trusted for pre-allocation
+    if num_of_messages > (bytes.remaining() / LEN_MARKER_SIZE) as u64 {
+        return Err(ProtocolError::MalformedBatch)?;
+    }
+
     let mut messages = Vec::with_capacity(num_of_messages as usize);
 
     for _ in 0..num_of_messages {
+        if bytes.remaining() < LEN_MARKER_SIZE {
+            return Err(ProtocolError::MalformedBatch)?;
+        }
+
         let message_len = bytes.get_u64();
+
+        if message_len > bytes.remaining() as u64 {
+            return Err(ProtocolError::MalformedBatch)?;
+        }
+
         let message_bytes = bytes.split_to(message_len as usize);
         messages.push(message_bytes);
     }
 
-    messages
+    Ok(messages)
 }
